@@ -266,9 +266,8 @@ class Application(object):
         # the new stack first so that a bad wrapper leaves everything as is
         new_routes = self.routes[:index] + bound_routes + self.routes[index:]
         wsgi_stack = self._build_wsgi_stack(new_routes)
-        for br in bound_routes:
-            self.routes.insert(index, br)
-            index += 1
+        # one contiguous block, also for a negative index
+        self.routes[index:index] = bound_routes
         self._dispatch_wsgi = wsgi_stack
         return
 
